@@ -104,8 +104,12 @@ func ParseSelect(statement *sqlparser.Select) (logical.Node, *OutputOptions, err
 		aliases := make([]string, len(statement.SelectExprs))
 	selectExprLoop:
 		for i := range statement.SelectExprs {
-			inExpr := statement.SelectExprs[i].(*sqlparser.AliasedExpr).Expr
-			aliases[i] = statement.SelectExprs[i].(*sqlparser.AliasedExpr).As.String()
+			aliasedExpr, ok := statement.SelectExprs[i].(*sqlparser.AliasedExpr)
+			if !ok {
+				return nil, nil, errors.Errorf("expression with index %d in grouping must be an aggregate or part of group by key, got %v", i, reflect.TypeOf(statement.SelectExprs[i]))
+			}
+			inExpr := aliasedExpr.Expr
+			aliases[i] = aliasedExpr.As.String()
 			agg, expr, err := ParseAggregate(inExpr)
 			if err == nil {
 				isAggregate[i] = true
@@ -478,6 +482,10 @@ func ParseAggregate(expr sqlparser.Expr) (string, logical.Expression, error) {
 		_, ok := aggregates.Aggregates[curAggregate]
 		if !ok {
 			return "", nil, errors.Wrapf(ErrNotAggregate, "aggregate not found: %v", expr.Name)
+		}
+
+		if len(expr.Exprs) != 1 {
+			return "", nil, errors.Errorf("aggregate %v expects exactly one argument, got %d", expr.Name, len(expr.Exprs))
 		}
 
 		var parsedArg logical.Expression
